@@ -834,6 +834,13 @@ def callPlan (macroName : List Char) (nested : Bool) (original : Delim) (positio
           else .array tactic item false
         | .brace => .braceVerbatim
 
+/-- `FmtVisitor::visit_mac` and the foreign-item arm of `items.rs` behind `rewrite_macro` in item
+position: a call written with `()` or `[]` ends with `;` whatever path produced the text. -/
+def finishItemCall (original : Delim) (rw : List Char) : List Char :=
+  match original with
+  | .brace => rw
+  | _ => if rw.getLast? == some ';' then rw else rw ++ [';']
+
 /-- The delimiter of the call as emitted (`none`: the source text is kept, whatever it holds). -/
 def Plan.delim : Plan → Option Delim
   | .empty d _ => some d
